@@ -196,6 +196,27 @@ def t_run_func(E):
                             'timer is armed, the retry and later bursts are delivered late')
             return prev_sleep(E_, v, node) if prev_sleep else NONE
         aio.AWAIT['sleep'] = aw_sleep
+
+        def deadline_of_its_own(what):
+            def fn(E_, a, k):
+                inner = a[0] if a else None
+                around_user = isinstance(inner, Obj) and inner.cls == 'Awaitable' and \
+                    inner.fields.get('kind') in ('user_func', 'wrapped_in_run_func')
+                if not around_user:
+                    raise Unsupported('asyncio.%s(%r) in _run_func' % (what, inner), None)
+                if what == 'wait_for':
+                    E.oblige(Qn + '/call.the_wrapped_function_is_awaited_without_a_deadline_of_the_buffers_own',
+                             z3.BoolVal(False), props={'C08', 'C03', 'C07'},
+                             detail='wait_for around the call: a call that merely takes longer is cancelled (its arguments are '
+                                    'retried, a slow function never succeeds) or, shielded, keeps running while the retry '
+                                    'calls the function a second time -- two calls at once')
+                    raise PathEnd()
+                return aio.mk_awaitable('wrapped_in_run_func', inner=inner)
+            return VStub('asyncio.' + what, fn)
+        ns_ = Bn[('import', 'asyncio')]
+        ns_.attrs['wait_for'] = deadline_of_its_own('wait_for')
+        ns_.attrs['shield'] = deadline_of_its_own('shield')
+        aio.AWAIT['wrapped_in_run_func'] = lambda E_, v, node: E.await_(v.fields['inner'], node)
         E.cover(Qn + '/requires')
         E.canary(Qn + '/canary@entry')
         try:
@@ -671,8 +692,10 @@ def t_process_queue(E):
                 E.oblige(Qn + '/ensures.returns_without_a_round_only_on_loop_shutdown', z3.BoolVal(True), props={'C07'})
             else:
                 E.oblige(Qn + '/ensures.round_ends_only_after_a_successful_call',
-                         z3.BoolVal(st.get('last_run_ok') is True), props={'C03'},
-                         detail='arguments of a call that raised are kept and offered again')
+                         z3.BoolVal(st.get('last_run_ok') is True), props={'C03', 'C07', 'C08'},
+                         detail='arguments of a call that raised are kept and offered again; a round left any other way '
+                                '(an early exit for "nothing to do") sets the flag without a call and leaves the armed '
+                                'timed read behind: it swallows the next argument of the burst')
                 if st.get('p0') is not None:
                     E.oblige(Qn + '/ensures.every_element_of_every_dequeued_producer_was_in_the_successful_call',
                              z3.BoolVal(st.get('p0_state') == 'loaded' and bool(st.get('delivered_round'))), props={'C03', 'C07'})
@@ -747,6 +770,14 @@ def t_small(E):
         ns.attrs['wait_for'] = VStub('asyncio.wait_for', lambda E_, a, k: aio.mk_awaitable('wait_for', inner=a[0], timeout=a[1]))
         ns.attrs['ensure_future'] = VStub('asyncio.ensure_future', lambda E_, a, k: Obj('ATask', dict(
             coro=a[0], loop=k.get('loop', o.fields['loop']))))
+        # an ARGUMENT may be anything hashable -- a Future, a Task, a coroutine object included (a job handle to be
+        # collected by the function): what kind of object it is, is the caller's business
+        for pn in ('isfuture', 'iscoroutine', 'isawaitable'):
+            ns.attrs[pn] = VStub('asyncio.' + pn, (lambda n: lambda E_, a, k: VBool(
+                z3.Function('argument_' + n, ValS, B)(a[0].t)) if isinstance(a[0], VVal) else VBool(False))(pn))
+        insp = Bn.get(('import', 'inspect'))
+        if isinstance(insp, VNamespace):
+            insp.attrs['isawaitable'] = ns.attrs['isawaitable']
 
         # ---- _put: the flag is cleared BEFORE the put is handed to the loop (barrier), thread-safely
         f = method(E, '_put')
@@ -770,6 +801,8 @@ def t_small(E):
                 st.setdefault('puts', []).append(args[1])
                 return NONE
         E.specs[MOD + '.' + CLS + '._put'] = _PutSpec()
+        for mname in ('__call__', 'await_', 'map', 'amap'):
+            E.inline.add(MOD + '.' + CLS + '.' + mname)      # one submitter delegating to another is judged by what is put
         arg = VVal(E.fresh('arg', ValS))
         for mname, kind in (('__call__', 'obj'), ('await_', 'awaitable'), ('map', 'sync'), ('amap', 'async')):
             fm = method(E, mname)
@@ -801,7 +834,23 @@ def t_small(E):
             E.hooks[(ff.qualname, 'yield')] = lambda E_, fr, v, node: (out.append(v), NONE)[1]
             x = VVal(E.fresh('x', ValS))
             Bn['__await_ext__'] = lambda E_, v, node, fr: ((VVal(aio.aw_outcome(v.t)),) if v is x else None)
-            E.run_body(ff, [x], {})
+
+            def timed(E_, v, node, ff=ff, x=x):
+                if v.fields.get('inner') is x:
+                    E.oblige(ff.qualname + '/ensures.waits_for_the_awaitable_however_long_it_takes', z3.BoolVal(False),
+                             props={'C03'}, detail='wait_for(o, T): an awaitable that needs longer is CANCELLED by the buffer '
+                                                   'and its value never reaches the function')
+                    raise PathEnd()
+                raise Unsupported('await of wait_for', node)
+            prev_wf = aio.AWAIT.get('wait_for')
+            aio.AWAIT['wait_for'] = timed
+            try:
+                E.run_body(ff, [x], {})
+            finally:
+                if prev_wf is None:
+                    aio.AWAIT.pop('wait_for', None)
+                else:
+                    aio.AWAIT['wait_for'] = prev_wf
             if awaited:
                 okv = len(out) == 1 and isinstance(out[0], VVal) and z3.eq(out[0].t, aio.aw_outcome(x.t))
             else:
@@ -981,6 +1030,16 @@ def t_wait(E):
                 suspend(E, 'join', node)
                 gdone['v'] = E.fresh('getting_done', B)
                 return (NONE,)
+            if isinstance(v, Obj) and v.cls == 'Awaitable' and v.fields['kind'] == 'wait_for_in_wait':
+                inner = v.fields['inner']
+                c = inner.fields.get('coro') if isinstance(inner, Obj) and inner.cls == 'ATask' else inner
+                if isinstance(c, Obj) and c.cls == 'Awaitable' and c.fields.get('kind') == 'join':
+                    E.oblige(Qn + '/barrier.the_join_has_no_deadline', z3.BoolVal(False), props={'C07'},
+                             detail='wait_for(<join>, T): with an argument still queued behind a call in progress for longer '
+                                    'than T the waiter falls through to the flag, which the PREVIOUS round\'s success sets: '
+                                    'wait() returns although what was submitted before it was never passed to a call')
+                    raise PathEnd()
+                raise Unsupported('wait_for of %r in wait()' % (inner,), node)
             if isinstance(v, Obj) and v.cls == 'Awaitable' and v.fields['kind'] == 'sleep':
                 log.append(('yield',))
                 # the processing task gets a turn: it may finish the timed read meanwhile
@@ -993,6 +1052,9 @@ def t_wait(E):
                 return (VBool(True),)
             return None
         Bn['__await_ext__'] = aw_ext
+        Bn[('import', 'asyncio')].attrs['wait_for'] = VStub('asyncio.wait_for', lambda E_, a, k: aio.mk_awaitable(
+            'wait_for_in_wait', inner=a[0], timeout=a[1] if len(a) > 1 else k.get('timeout')))
+
         def rewait(E_, stn, fr, kind, it):
             E.oblige(Qn + '/ensures.returns_at_the_first_wake_up_of_the_completion_flag', z3.BoolVal(False), props={'C07'},
                      detail='a loop around the wait for the flag: under a steady stream of submissions the flag is '
